@@ -519,7 +519,9 @@ def write_evidence(prop, tier, seed, pspec, obls, infos, cmds, scratch_diff, kno
     failed = [o for o in obls if o.status == 'failed']
     bounded = [o for o in obls if o.status == 'bounded-ok']
     probes = [o for o in obls if o.status == 'probe-ok']
-    n_obl = sum(o.count for o in proved) + len(failed) + len([o for o in obls if o.status == 'undecided' and not o.bounded])
+    # obligations / discharged count the deductive obligations only; a failed BOUNDED check (every native unit is
+    # one, e.g. the replay of an open known finding) is reported under failed_obligations / known_findings, not here
+    n_obl = sum(o.count for o in proved) + len([o for o in failed if o.engine != 'native' and not o.bounded]) + len([o for o in obls if o.status == 'undecided' and not o.bounded])
     n_dis = sum(o.count for o in proved)
     by_engine = {}
     for o in proved:
